@@ -532,6 +532,32 @@ theorem setConn_wmono (s : State) (c : ConnId) (f : Conn → Conn) : WMono (setC
   · exact WMono.of_eq rfl rfl rfl rfl
   · exact WMono.refl s
 
+theorem abortTask_waiters {s : State} (h : Waiters s) (i : Nat) : Waiters (abortTask s i) := by
+  unfold abortTask
+  cases ht : taskOf s i with
+  | none => exact h
+  | some t =>
+    cases t with
+    | whenReady c tk hp => exact h.mono (WMono.of_eq rfl rfl rfl rfl)
+    | delayed r =>
+      simp only []
+      cases hco : s.co r with
+      | none => exact h.mono (WMono.of_eq rfl rfl rfl rfl)
+      | some c =>
+        simp only []
+        have h3 : Waiters (removeTask s i) := h.mono (WMono.of_eq rfl rfl rfl rfl)
+        have h4 := cancelIfOwner_waiters h3 c
+        have hr4 : (cancelIfOwner (removeTask s i) c).co r = some c := by rw [cancelIfOwner_co]; exact hco
+        exact h4.mono (commit_wmono (c' := { c with marker := false }) hr4 rfl rfl (fun hi => hi))
+
+theorem abortAll_waiters : ∀ (fuel : Nat) (s : State), Waiters s → Waiters (abortAll fuel s)
+  | 0, _, h => h
+  | fuel + 1, s, h => by
+    simp only [abortAll]
+    split
+    · exact h.mono (WMono.of_eq rfl rfl rfl rfl)
+    · exact abortAll_waiters fuel _ (abortTask_waiters h _)
+
 theorem step_waiters (s : State) (op : Op) (h : Waiters s) : Waiters (step s op).1 := by
   cases op with
   | issue r k mux =>
@@ -608,6 +634,7 @@ theorem step_waiters (s : State) (op : Op) (h : Waiters s) : Waiters (step s op)
   | run => exact runAll_waiters _ s h
   | tick ms => exact h.mono (WMono.of_eq rfl rfl rfl rfl)
   | mark => exact h
+  | shutdown => exact abortAll_waiters _ s h
 
 theorem run_waiters : ∀ (ops : List Op) (s : State), Waiters s → Waiters (run s ops).1
   | [], _, h => h
